@@ -34,6 +34,10 @@ func oneRun(o *kit.Out, r *kit.Rand, forceSaturated int) {
 	interval := time.Duration(kit.Pick(r, 5, 10, 20, 50, 100, 300)) * time.Millisecond
 	dist := kit.Pick(r, "none", "none", "regular", "random")
 	profile := r.Intn(3)
+	if r.Chance(25) {
+		profile = 5
+		dist = "none"
+	}
 	// saturated pool with idle ticks: one worker, bodies of almost half an interval, the
 	// profile asks for 8, 0, 0, 8, 0, 0, ...: a tick of 0 is a request like any other (it
 	// supersedes what is still pending), so nothing may start during the idle intervals
@@ -89,6 +93,10 @@ func oneRun(o *kit.Out, r *kit.Rand, forceSaturated int) {
 			v = base
 		case 1:
 			v = base + k
+		case 5:
+			// a profile that dips below zero (a staged profile before its start time, a negative
+			// target): a negative value requests nothing
+			v = []int64{3, -2, 0, 4, -7, base, -1}[k%7]
 		default:
 			v = (base * (k + 1)) % 17
 		}
